@@ -169,7 +169,7 @@ def prove(pid, thorough):
     p = sh(["lake", "env", "lean", audit], cwd=LEAN, check=False)
     text = p.stdout
     # one report per theorem, in order
-    reports = re.findall(r"'([^']+)' (does not depend on any axioms|depends on axioms: \[([^\]]*)\])", text)
+    reports = re.findall(r"'(\S+)' (does not depend on any axioms|depends on axioms: \[([^\]]*)\])", text)
     seen = {}
     for name, _, axs in reports:
         seen[name] = set(a.strip() for a in axs.replace("\n", " ").split(",") if a.strip())
